@@ -45,12 +45,14 @@ def cases(draw, tier):
         draw(st.sampled_from(["int", "dyadic", "posint", "small", "count",
                               "count"]))
     shape = None
+    long_ties = False
     if what == "rankdata" and draw(st.sampled_from([False, False, True])):
         # long vectors with many ties (sorting networks / unstable sorts only
         # show on more than a handful of entries)
         values = "small"
-        a_, b_ = draw(st.integers(9, 24)), draw(st.integers(1, 3))
+        a_, b_ = draw(st.integers(12, 48)), draw(st.integers(1, 3))
         shape = (a_, b_) if draw(st.booleans()) else (b_, a_)
+        long_ties = True
     spec = draw(gen.table_specs(tier, values=values, md=True, history=True,
                                 shape=shape))
     if values == "count" and what in ("transform", "rankdata", "pa") and \
@@ -70,6 +72,11 @@ def cases(draw, tier):
         case["fn"] = draw(st.sampled_from(FNS))
     if what == "rankdata":
         case["method"] = draw(st.sampled_from(RANKS))
+        if long_ties:
+            # along the long axis, mostly with the method that depends on
+            # the order of equal values
+            case["method"] = draw(st.sampled_from(RANKS + ["ordinal"] * 4))
+            case["axis"] = "observation" if shape[0] < shape[1] else "sample"
     if what in ("norm", "cli"):
         # totals far below / above 1 (powers of two keep everything exact)
         k = draw(st.sampled_from([0, 0, -40, -60, 40]))
